@@ -52,7 +52,9 @@ CELL = (2, 4)
 TERM_B = (9, 8)        # the terminal after a resize (history dimension of the relative padding sizes)
 _MASK = (1 << 63) - 1
 DEFAULT_ALPHA = 40 / 255
+SHADE_ALPHABET = "+st-0159.#<L"     # the exhaustive pass of the harness style "shade" (s, t are its field letters)
 STYLE_DEFAULTS = dict(
+    shade=dict(shade=0, tint=0),
     block={},
     kitty=dict(method=None, z_index=0, mix=False, compress=4),
     iterm2=dict(method=None, mix=False, compress=4),
@@ -128,6 +130,29 @@ def ref_style(style, s):
     """Returns ("ok", args) | ("syntax", None) | ("value", None).  args holds only the given fields."""
     if style == "block":
         return ("syntax", None)          # BlockImage defines no style-specific fields
+    if style == "shade":                 # harness style:  [ s <digit> ] [ t ["-"] digit+ ],  -1000 < tint < 1000
+        n, i, args = len(s), 0, {}
+        if i < n and s[i] == "s":
+            if i + 1 < n and s[i + 1] in DIGITS:
+                args["shade"] = int(s[i + 1])
+                i += 2
+            else:
+                return ("syntax", None)
+        if i < n and s[i] == "t":
+            j = i + 1
+            neg = j < n and s[j] == "-"
+            if neg:
+                j += 1
+            k = _digits(s, j)
+            if k == j:
+                return ("syntax", None)
+            args["tint"] = -int(s[j:k]) if neg else int(s[j:k])
+            i = k
+        if i != n or not args:
+            return ("syntax", None)
+        if "tint" in args and not -1000 < args["tint"] < 1000:
+            return ("value", None)
+        return ("ok", args)
     n = len(s)
     i = 0
     args = {}
@@ -196,8 +221,48 @@ def norm_alpha(a):
 
 
 # ------------------------------------------------------------------------------------------ implementation side
+_SHADE = []
+
+
+def shade_class(L):
+    """A user-defined render style written against the documented subclass hooks (_FORMAT_SPEC with GROUPED
+    field patterns, _get_style_format_spec, _check_style_format_spec, _style_args): block + two cosmetic
+    parameters, style sub-grammar  [ s <shade> ] [ t [-] <tint> ]."""
+    if _SHADE:
+        return _SHADE[0]
+    import re
+
+    class ShadeImage(L.image.BlockImage):
+        _FORMAT_SPEC = (re.compile(r"s(\d)", re.ASCII), re.compile(r"t(-?)(\d+)", re.ASCII))
+        _style_args = {
+            "shade": (0, (lambda x: isinstance(x, int), "shade must be an integer"),
+                      (lambda x: 0 <= x <= 9, "shade must be between 0 and 9")),
+            "tint": (0, (lambda x: isinstance(x, int), "tint must be an integer"),
+                     (lambda x: -1000 < x < 1000, "tint must be between -999 and 999")),
+        }
+
+        @classmethod
+        def _check_style_format_spec(cls, spec, original):
+            parent, ((shade_m, shade), (tint_m, sign, tint)) = cls._get_style_format_spec(spec, original)
+            args = {}
+            if parent:
+                args.update(super()._check_style_format_spec(parent, original))
+            if shade_m:
+                args["shade"] = int(shade)
+            if tint_m:
+                args["tint"] = int(sign + tint)
+            return cls._check_style_args(args)
+
+        def _render_image(self, img, alpha, *, frame=False, split_cells=False, shade=0, tint=0):
+            return super()._render_image(img, alpha, frame=frame, split_cells=split_cells)
+
+    _SHADE.append(ShadeImage)
+    return ShadeImage
+
+
 def classes(L):
-    return dict(block=L.image.BlockImage, kitty=L.image.KittyImage, iterm2=L.image.ITerm2Image)
+    return dict(block=L.image.BlockImage, kitty=L.image.KittyImage, iterm2=L.image.ITerm2Image,
+                shade=shade_class(L))
 
 
 def class_state(L):
@@ -371,29 +436,29 @@ def compare(col, L, style, cls, spec, ref, part, got=None, term=TERM, phase="fir
     return got
 
 
-def with_ws(specs, counter):
+def with_ws(specs, counter, styles=STYLES):
     """*specs*, each sentence (for at least one style) followed by its control-whitespace variants."""
     for spec in specs:
         yield spec
         fields, style_spec = ref_base(spec)
         if fields is not None and (style_spec is None or
-                                   any(ref_style(st, style_spec)[0] == "ok" for st in STYLES)):
+                                   any(ref_style(st, style_spec)[0] == "ok" for st in styles)):
             for v in ws_variants(spec):
                 counter[0] += 1
                 yield v
 
 
-def check_strings(col, L, specs, part, state_every=20000, ws=True):
+def check_strings(col, L, specs, part, state_every=20000, ws=True, styles=STYLES):
     """Acceptance / interpretation for an iterable of strings x the three styles; the class state must
     be the same after every batch.  With *ws*, every string whose base part is a sentence is followed by the
     same string with one control-whitespace character (newline, tab, CR) at every position."""
-    cl = [(style, classes(L)[style]) for style in STYLES]
+    cl = [(style, classes(L)[style]) for style in styles]
     StyleError = L.common.StyleError
     before = class_state(L)
     n = 0
     if ws:
         nws = [0]
-        specs = with_ws(specs, nws)
+        specs = with_ws(specs, nws, styles)
     for spec in specs:
         fields, style_spec = ref_base(spec)
         for style, cls in cl:
@@ -426,7 +491,7 @@ def check_strings(col, L, specs, part, state_every=20000, ws=True):
                               f"_check_format_spec within the batch ending at {spec!r}",
                               dict(kind="spec", style=None, spec=spec))
                 before = after
-    col.count(3 * n)
+    col.count(len(cl) * n)
     if ws:
         col.inc("strings_with_control_whitespace", nws[0])
     if class_state(L) != before:
@@ -435,7 +500,7 @@ def check_strings(col, L, specs, part, state_every=20000, ws=True):
 
 
 # ------------------------------------------------------------------------------------------ (d) format == explicit
-IDENT = dict(block="kitty", kitty="kitty", iterm2="wezterm")
+IDENT = dict(block="kitty", kitty="kitty", iterm2="wezterm", shade="kitty")
 _IMGS = {}
 
 
@@ -693,6 +758,45 @@ def image_state_cases(col, L, style, specs):
         os.rename(gone + ".away", gone)
 
 
+def file_alpha_case(col, L, spec):
+    """iterm2, WHOLE, an RGBA PNG *file* source small enough to be sent as is (read_from_file on): what the
+    specifier says about transparency is what the terminal receives - with `#` (alpha ignored) or a bgcolor
+    (transparent pixels overlaid on a colour) no transmitted pixel is transparent."""
+    import io as _io
+
+    from PIL import Image
+
+    from .. import vterm
+
+    style = "iterm2"
+    case = dict(kind="file-alpha", spec=spec)
+    ref = ref_parse(spec, style)
+    if ref[0] != "ok":
+        raise world.HarnessError(f"file_alpha_case needs a sentence, got {spec!r}")
+    world.setup(IDENT[style], TERM[0], TERM[1], cell=CELL)
+    cls = classes(L)[style]
+    img = cls.from_file(state_file("rgba"), width=2, height=1)
+    col.count()
+    col.inc("file_alpha_cases")
+    out = format(img, spec)
+    t = vterm.run(out, TERM[0] + 2, TERM[1] + 2, IDENT[style])
+    alpha = ref[1][4]
+    if not t.iterm_images:
+        col.violation(dict(clause="file-alpha", what="no-image"), f"iterm2: format(file image, {spec!r}) transmits "
+                      f"no image", case)
+        return
+    for rec in t.iterm_images:
+        raw = rec.get("raw")
+        with Image.open(_io.BytesIO(raw)) as im:
+            amin = min(im.convert("RGBA").getdata(3))
+        if (alpha is None or isinstance(alpha, str)) and amin < 255:
+            col.violation(dict(clause="interpretation", style=style, field="alpha", via="decoded-payload",
+                               source="rgba-file"),
+                          f"iterm2: format(RGBA file image, {spec!r}): the specifier "
+                          + ("disables transparency" if alpha is None else f"asks for the background {alpha!r}") +
+                          f" but the transmitted image still has transparent pixels (min alpha {amin})", case)
+
+
 def urwid_first_case(col, L, style, spec):
     """Entry-point ordering within one execution: UrwidImage(image, spec) first, then format(image, spec), then
     ImageIterator(image, 1, spec) - the same specifier string each time.  What the widget does with its own copy
@@ -819,6 +923,11 @@ def _shard(items):
             n0 = col.evaluations
             check_strings(col, L, gen_non_ascii(prefix, maxlen, symbols), "non-ascii-digit")
             col.inc("strings_non_ascii_digit", (col.evaluations - n0) // 3)
+        elif kind == "shade":
+            prefix, maxlen = arg
+            n0 = col.evaluations
+            check_strings(col, L, gen_prefix(prefix, maxlen, SHADE_ALPHABET), "shade-style", styles=("shade",))
+            col.inc("strings_shade_style", col.evaluations - n0)
         elif kind == "alpha":
             prefix, maxlen = arg
             check_strings(col, L, gen_prefix(prefix, maxlen, ALPHA_FAMILY), "alpha-family")
@@ -845,6 +954,16 @@ def _shard(items):
                     col.violation(dict(clause="exception", style=style, exc=type(e).__name__, via="format"),
                                   f"{style}: {spec!r}: {type(e).__name__}: {e}", dict(kind="format", style=style, spec=spec))
             world.uninstall()
+            world.setup("kitty", TERM[0], TERM[1], cell=CELL)
+        elif kind == "file-alpha":
+            for spec in arg:
+                try:
+                    file_alpha_case(col, L, spec)
+                except world.HarnessError:
+                    raise
+                except Exception as e:
+                    col.violation(dict(clause="exception", exc=type(e).__name__, via="file-alpha"),
+                                  f"{spec!r}: {type(e).__name__}: {e}", dict(kind="file-alpha", spec=spec))
             world.setup("kitty", TERM[0], TERM[1], cell=CELL)
         elif kind == "image-state":
             style, specs = arg
@@ -924,6 +1043,12 @@ def run(ctx):
     product = menu_product([H_MENU, W_MENU, V_MENU, A_MENU, S_MENU])
     for c in chunks(product, 2000):
         items.append(("list", ("menu-product", c)))
+    # a user-defined style with grouped field patterns (documented subclass hooks), its own exhaustive pass
+    shade_len = int(opts.get("shadelen", 5 if quick else 6))
+    for t in itertools.product(SHADE_ALPHABET, repeat=2):
+        items.append(("shade", ("".join(t), shade_len)))
+    items.append(("shade", ("", 1)))
+    items.append(("format", ("shade", ["+s3", "+t-12", "+s3t7", "<5.2#+s1", "##+t0", "+s0"], True)))
     # non-ASCII decimal digits: never part of a sentence, wherever a digit may stand
     na_symbols = NA_DIGITS[:1] if quick else NA_DIGITS
     na_len = int(opts.get("nalen", 5 if quick else 6))
@@ -946,6 +1071,8 @@ def run(ctx):
         items.append(("entry", c))
     for style in ("kitty", "iterm2"):
         items.append(("iterator", (style, ITER_SPECS[style])))
+    items.append(("file-alpha", ["+W", "#+W", "##+W", "#ffffff+W", "#0a5FC9+W", "#.5+W", "<5.2##+Wm1", "#+Wc9",
+                                 "##+L", "#123456+L", "#+L"]))
     # rejected specifiers x image state {live, closed, source file missing}
     state_specs = ["".join(t) for k in (1, 2) for t in itertools.product(ALPHABET, repeat=k)] + \
         product[::5 if quick else 1]
@@ -956,6 +1083,9 @@ def run(ctx):
         ctx.merge(col)
     if quick is False and maxlen < 6:
         ctx.cap(f"all-strings bound is {maxlen}, DESIGN asks for 6 in the thorough tier")
+    ctx.coverage.update(shade_style_pass=dict(alphabet=SHADE_ALPHABET, max_length=shade_len,
+                                              grammar="[s digit][t [-] digit+], harness subclass of BlockImage "
+                                              "with grouped _FORMAT_SPEC patterns"))
     ctx.coverage.update(non_ascii_digit_pass=dict(symbols=[f"U+{ord(c):04X}" for c in na_symbols],
                                                   context_alphabet=NA_ALPHABET, max_length=na_len,
                                                   note="all strings over the context alphabet + the symbols up to "
@@ -1003,6 +1133,8 @@ def replay(ctx, case):
     elif kind == "iterator":
         _GIF = imgkit.gif(2, 2, 2)
         iterator_style_case(ctx, L, case["style"], case["spec"])
+    elif kind == "file-alpha":
+        file_alpha_case(ctx, L, case["spec"])
     elif kind == "image-state":
         image_state_cases(ctx, L, case["style"], [case["spec"]])
     elif kind == "urwid-first":
